@@ -237,6 +237,11 @@ namespace sqf::parser::preprocessor
             bool allow_write;
             ::sqf::runtime::diagnostics::diag_info info_if;
             ::sqf::runtime::diagnostics::diag_info info_else;
+            // Whether the condition of this section holds (flipped by #else), and whether
+            // the section it is nested in writes: an inner section never writes inside an
+            // inactive outer one.
+            bool own_condition = true;
+            bool parent_allow_write = true;
         };
         struct file_scope
         {
